@@ -310,10 +310,10 @@ def accept_filter(run, exe, cands, name="accx"):
     return out
 
 def part_of(eco, text):
-    """the partition label of Universe.tla (Part): alpm versions with an explicit pkgrel (a '-' in the text) are
-    only comparable among themselves, and versions without one among themselves; every other ecosystem has one class.
+    """the partition label of Universe.tla (Part): alpm versions with an explicit pkgrel - in go-univers' reading
+    (Alpm!ASplit.hasRel) the digits after a final '-' - are only comparable among themselves, and versions without one among themselves; every other ecosystem has one class.
     Computed from the text so that it also holds for members that do not come from Universe.tla."""
-    return 1 if (eco == "alpm" and "-" in text) else 0
+    return 1 if (eco == "alpm" and re.search(r"-[0-9]+$", text.strip()) is not None) else 0
 
 def stratified(members, n, rnd):
     """seeded sample that covers as many distinct *shapes* as possible: members are grouped by their
